@@ -18,8 +18,9 @@ No libvna code is used.  Tolerances (DESIGN 4.3):
   never tighter than REL_FLOOR (libm differences between the C and the
   Python evaluation of log10/atan2);  values that had to be *converted* to
   another parameter type get an additional normwise slack
-  1e3 * eps * cond * max|G| with cond an empirical condition estimate of the
-  conversion, and are only compared when cond <= 1e6.
+  CONV_SLACK * cond * max|G| with cond an empirical condition estimate of the
+  conversion, and are only compared when cond <= 1e6 and the data are
+  moderately scaled (conversion accuracy itself is the subject of C04).
 """
 import json
 import math
@@ -33,8 +34,13 @@ import tsread
 REL_FLOOR = 1e-12
 COND_MAX = 1e6
 ROUND_TOL = 1e4 * netgt.EPS          # "to rounding"
-DENOTE_TOL = 1e-12                   # loaded value vs value denoted by the file
-DENOTE_TOL_RX = 1e-9                 # ... through the R-C / R-L forms
+DENOTE_TOL = 1e-10                   # loaded value vs value denoted by the file
+DENOTE_TOL_RX = 1e-8                 # ... through the R-C / R-L forms
+# normwise uncertainty granted to a *converted* parameter (times the condition
+# estimate): the largest deviation between libvna's conversions and netgt.py
+# observed over 3e5 files on the fixed tree was 4.7e-13, so converted
+# parameters are verified to 8 digits at most (a wrong formula is off by O(1))
+CONV_SLACK = 1e-8
 
 
 def fh(x):
@@ -137,7 +143,7 @@ class Truth:
                 if o.type == p:
                     slack = 0.0
                 else:
-                    slack = 1e3 * netgt.EPS * cond * norm
+                    slack = CONV_SLACK * cond * norm
                     # conversion accuracy at extreme magnitudes is the
                     # subject of C04, not of the file checks: a converted
                     # parameter is compared only for moderately scaled data
@@ -212,12 +218,13 @@ def read_event(cfg, dump, mg):
         ev["z0OK"] = int(z_ok)
         v_ok = True
         n = obj.ports
+        last_block = ""
         for bi, (p, form) in enumerate(doc["params"]):
             for f in range(obj.nf):
                 if not v_ok and "bad" not in ev:
-                    pb, fb = doc["params"][bi if f else bi - 1]
-                    ev["bad"] = "%s%s.%s" % ("" if pb == obj.type else obj.type + "->",
-                                            pb, fb)
+                    ev["bad"] = last_block
+                last_block = "%s%s.%s" % ("" if p == obj.type else obj.type + "->",
+                                         p, form)
                 nums = doc["blocks"][bi][f]
                 g, cond, slack = truth.get(p, f)
                 if g is None or cond > COND_MAX:
@@ -259,14 +266,18 @@ def read_event(cfg, dump, mg):
                                 v_ok &= pair_ok(pr, g[i], form, drel, slack, mg)
                             else:
                                 ga, gb = netgt.zin_rx_pair(g[i], obj.freqs[f], form)
-                                # R and X depend on z through at most |z|^2/re, |z|^2/im
-                                za = abs(g[i])
-                                k1 = za / abs(g[i].real) if form[0] == "p" else 1.0
-                                k2 = za / abs(g[i].imag)
-                                s1 = abs(ga) * 2.0 * k1 * slack / za
-                                s2 = abs(gb) * 2.0 * k2 * slack / za
+                                # propagate the absolute uncertainty of z
+                                # (slack) into R and into C or L
+                                if form[0] == "s":
+                                    s1 = 2.0 * slack
+                                    s2 = 2.0 * abs(gb) * slack / abs(g[i].imag)
+                                else:
+                                    yv = 1.0 / g[i]
+                                    dy = slack / abs(g[i]) ** 2
+                                    s1 = 2.0 * abs(ga) * dy / abs(yv.real)
+                                    s2 = 2.0 * abs(gb) * dy / abs(yv.imag)
                                 v_ok &= close(pr[0], ga, drel, s1, mg, "rx-r")
-                                v_ok &= close(pr[1], gb, drel + 4e-16, s2, mg, "rx-x")
+                                v_ok &= close(pr[1], gb, drel, s2, mg, "rx-x")
                     else:
                         q = 0
                         for r in range(n):
@@ -277,9 +288,7 @@ def read_event(cfg, dump, mg):
                 except (ZeroDivisionError, OverflowError, ValueError):
                     ev["qualified"] = 0     # degenerate ground truth
         if not v_ok and "bad" not in ev:
-            pb, fb = doc["params"][-1]
-            ev["bad"] = "%s%s.%s" % ("" if pb == obj.type else obj.type + "->",
-                                    pb, fb)
+            ev["bad"] = last_block
         ev["valsOK"] = int(v_ok)
         return ev, doc
     # Touchstone
@@ -486,3 +495,136 @@ def process_c06(in_path, out_path, mg=None):
 if __name__ == "__main__":
     st = process_c06(sys.argv[1], sys.argv[2])
     print(json.dumps(st, indent=1))
+
+
+# --------------------------------------------------------------------------
+# C08: equivalent spellings
+# --------------------------------------------------------------------------
+
+SPELL_TOL = 1e-7          # files are written with 12 significant digits
+SPELL_FTOL = 1e-12
+
+
+def _spell_obs(content, proj, mg):
+    """loaded projection against the numbers the file was generated from"""
+    obs = {"freqOK": 0, "z0OK": 0, "valsOK": 0}
+    if "freqs" not in proj:
+        return obs, None
+    lo = Obj(proj)
+    n = content["ports"]
+    obs["freqOK"] = int(len(lo.freqs) == content["nf"] and all(
+        mg.see("sp-freq", abs(a - b), SPELL_FTOL * abs(b))
+        for a, b in zip(lo.freqs, content["freqs"])))
+    if not lo.perfreq and len(lo.z0) == 1 and len(lo.z0[0]) == n:
+        obs["z0OK"] = int(all(
+            mg.see("sp-z0", abs(a - complex(b, 0.0)), SPELL_FTOL * abs(b))
+            for a, b in zip(lo.z0[0], content["z0"])))
+    ok = lo.rows == n and lo.cols == n and lo.nf == content["nf"]
+    if ok:
+        for f in range(lo.nf):
+            norm = netgt.maxabs(content["data"][f])
+            for r in range(n):
+                for c in range(n):
+                    g = content["data"][f][r][c]
+                    ok &= mg.see("sp-val", abs(lo.data[f][r][c] - g),
+                                 SPELL_TOL * abs(g) + 1e-3 * SPELL_TOL * norm)
+    obs["valsOK"] = int(bool(ok))
+    return obs, lo
+
+
+def _pair_ok(a, b, mg):
+    if a is None or b is None:
+        return 0
+    if (a.type, a.rows, a.cols, a.nf) != (b.type, b.rows, b.cols, b.nf):
+        return 0
+    ok = all(mg.see("pair-freq", abs(x - y), 2 * SPELL_FTOL * abs(y))
+             for x, y in zip(a.freqs, b.freqs))
+    ok &= a.perfreq == b.perfreq and len(a.z0) == len(b.z0) and all(
+        mg.see("pair-z0", abs(x - y), 2 * SPELL_FTOL * abs(y))
+        for za, zb in zip(a.z0, b.z0) for x, y in zip(za, zb))
+    for f in range(a.nf):
+        norm = netgt.maxabs(a.data[f])
+        for r in range(a.rows):
+            for c in range(a.cols):
+                x, y = a.data[f][r][c], b.data[f][r][c]
+                ok &= mg.see("pair-val", abs(x - y),
+                             2 * SPELL_TOL * abs(y) + 2e-3 * SPELL_TOL * norm)
+    return int(bool(ok))
+
+
+def _npd_obs(content, proj, mg):
+    obs = {"freqOK": 0, "z0OK": 0, "valsOK": 0}
+    if "freqs" not in proj:
+        return obs, None
+    lo = Obj(proj)
+    n = content["ports"]
+    rows = 1 if content["type"] == "Zin" else n
+    obs["freqOK"] = int(len(lo.freqs) == content["nf"] and all(
+        mg.see("sp-freq", abs(a - b), SPELL_FTOL * abs(b))
+        for a, b in zip(lo.freqs, content["freqs"])))
+    want = content["fz0"] if content["fz0"] is not None else [content["z0"]]
+    if lo.perfreq == (content["fz0"] is not None) and len(lo.z0) == len(want):
+        obs["z0OK"] = int(all(
+            len(a) == len(b) and all(
+                mg.see("sp-z0", abs(x - y), 1e-11 * abs(y)) for x, y in zip(a, b))
+            for a, b in zip(lo.z0, want)))
+    ok = lo.rows == rows and lo.cols == n and lo.nf == content["nf"]
+    if ok:
+        for f in range(lo.nf):
+            norm = netgt.maxabs(content["data"][f])
+            for r in range(rows):
+                for c in range(n):
+                    g = content["data"][f][r][c]
+                    ok &= mg.see("sp-val", abs(lo.data[f][r][c] - g),
+                                 SPELL_TOL * abs(g) + 1e-3 * SPELL_TOL * norm)
+    obs["valsOK"] = int(bool(ok))
+    return obs, lo
+
+
+def process_c08(in_path, out_path, sidecar, mg=None):
+    """sidecar: dict pair index -> {cls, seed, a: {s, gen}, b: {s, gen}}"""
+    import tsgen
+    mg = mg or Margin()
+    stats = {"episodes": 0, "loads": 0}
+    cur = None
+    content = None
+    first = None
+    with open(in_path) as src, open(out_path, "w") as dst:
+        for line in src:
+            if line.startswith('{"e":"Reset"'):
+                stats["episodes"] += 1
+                cid = json.loads(line)["case"]
+                idx = int(cid.split(":")[2])
+                cur = sidecar[idx]
+                if cur.get("kind") == "npd":
+                    content = tsgen.make_npd_content(cur["cls"], cur["seed"])
+                else:
+                    content = tsgen.make_content(cur["cls"], cur["seed"])
+                first = None
+                dst.write(line)
+                continue
+            if line.startswith('{"e":"SLoad"'):
+                ev = json.loads(line)
+                proj = ev["p"]
+                side = cur[ev["which"]]
+                if cur.get("kind") == "npd":
+                    obs, lo = _npd_obs(content, proj, mg)
+                    ev["e"] = "NLoad"
+                else:
+                    obs, lo = _spell_obs(content, proj, mg)
+                    ev["gen"] = side["gen"]
+                ev["p"] = {k: proj[k] for k in ("type", "rows", "cols", "nf", "fz0")}
+                ev["c"] = cur["cls"]
+                ev["s"] = side["s"]
+                ev["obs"] = obs
+                if ev["which"] == "a":
+                    first = lo
+                    ev["pairOK"] = 1
+                else:
+                    ev["pairOK"] = _pair_ok(first, lo, mg)
+                stats["loads"] += 1
+                dst.write(json.dumps(ev, separators=(",", ":")) + "\n")
+                continue
+            dst.write(line)
+    stats["margins"] = {k: float("%.3g" % v) for k, v in sorted(mg.worst.items())}
+    return stats
